@@ -27,6 +27,7 @@ Definition pc_tok_ok (g : bar) (pc : bpc) : Prop :=
   | BArr _ old k _ _ => tok_ok g old k
   | BC _ _ old k _ => tok_ok g old k
   | BPoll old k => tok_ok g old k
+  | BSpin old k => tok_ok g old k
   | _ => True
   end.
 
@@ -60,8 +61,8 @@ Proof.
   intros I H1 H2 H3 H4. destruct I as [Ip IT Is Isub Itok Iidle Istage Ibc].
   assert (Hpc : forall t0, bpcs (upd ls t l') t0 = bpcs ls t0).
   { intros t0. destruct (Nat.eq_dec t0 t) as [->|Hne]; [|apply bpcs_other; exact Hne].
-    rewrite bpcs_same. unfold bpcs. destruct (pcb l') as [| | ? ? ? ? [?|]| |]; try contradiction;
-      destruct (pcb (ls t)) as [| | ? ? ? ? [?|]| |]; try contradiction; reflexivity. }
+    rewrite bpcs_same. unfold bpcs. destruct (pcb l') as [| | ? ? ? ? [?|]| | |]; try contradiction;
+      destruct (pcb (ls t)) as [| | ? ? ? ? [?|]| | |]; try contradiction; reflexivity. }
   split; try assumption.
   - apply (TInv_ext _ _ _ (bpcs ls)); assumption.
   - intros t0 n old k w pc H0. destruct (Nat.eq_dec t0 t) as [->|Hne].
@@ -152,12 +153,12 @@ Proof.
     assert (Hns : no_sub (pcb (arr_next (ls t) n old k w)) /\
                   tok_ok gX (token (arr_next (ls t) n old k w)) (tokk (arr_next (ls t) n old k w)) /\
                   pc_tok_ok gX (pcb (arr_next (ls t) n old k w))).
-    { unfold arr_next. destruct n as [|[|m]]; [destruct w|destruct w|]; cbn; repeat split;
+    { unfold arr_next, wait_pc. destruct n as [|[|m]]; [destruct w; [destruct (busy_op _)|]|destruct w; [destruct (busy_op _)|]|]; cbn; repeat split;
         try (destruct Htk; assumption); try (destruct (Itok t) as [[? ?] _]; assumption); try exact Logic.I. }
     destruct Hns as [Hn1 [Hn2 Hn3]].
     split; cbn [set_tree btree phase eph phno cstage completer expected compl adj drops]; try assumption.
     + apply HT; [intros; apply bpcs_other; assumption|right; rewrite bpcs_same].
-      destruct (pcb (arr_next (ls t) n old k w)) as [| | ? ? ? ? [?|]| |]; try reflexivity; destruct Hn1.
+      destruct (pcb (arr_next (ls t) n old k w)) as [| | ? ? ? ? [?|]| | |]; try reflexivity; destruct Hn1.
     + intros t0 n0 old0 k0 w0 pc0 H0. destruct (Nat.eq_dec t0 t) as [->|Hne].
       * rewrite upd_same in H0. rewrite H0 in Hn1. destruct Hn1.
       * rewrite upd_other in H0 by exact Hne. eapply Isub; exact H0.
@@ -177,14 +178,15 @@ Proof. destruct pc as [| |[|]]; reflexivity. Qed.
 Lemma b_tstep_bad_mono start t g l : bad g = true -> bad (fst (b_tstep start t g l)) = true.
 Proof.
   intros H. unfold b_tstep.
-  destruct (pcb l) as [|n w|n old k w [pc|]|st n old k w|old k].
-  - destruct (bprog l) as [|[n| | |] ?]; cbn; try assumption. rewrite H. reflexivity.
+  destruct (pcb l) as [|n w|n old k w [pc|]|st n old k w|old k|old k].
+  - destruct (bprog l) as [|[n| | | | |] ?]; cbn; try assumption. rewrite H. reflexivity.
   - destruct n; cbn; [assumption|]. rewrite H. reflexivity.
   - destruct (tree_step old t (btree g) pc) as [tr' pc']. rewrite after_tree_bad. exact H.
   - destruct (tree_start (expected g) t (btree g) start) as [tr' pc']. rewrite after_tree_bad. cbn.
     rewrite H. reflexivity.
   - destruct st as [|[|[|[|st]]]]; cbn; assumption.
   - destruct (N.eqb (phase g) old); cbn; assumption.
+  - destruct (timed_out start); [cbn; assumption|]. destruct (N.eqb (phase g) old); cbn; assumption.
 Qed.
 
 Lemma tok_ok_S g g' old k : phno g' = S (phno g) -> tok_ok g old k -> tok_ok g' old k.
@@ -195,9 +197,9 @@ Lemma BInv_step start t g (ls : locals blocal) : BInv g ls ->
   BInv (fst (b_tstep start t g (ls t))) (upd ls t (snd (b_tstep start t g (ls t)))).
 Proof.
   intros I Hbad. unfold b_tstep in *.
-  destruct (pcb (ls t)) as [|n w|n old k w [pc|]|st n old k w|old k] eqn:Hpc.
+  destruct (pcb (ls t)) as [|n w|n old k w [pc|]|st n old k w|old k|old k] eqn:Hpc.
   - (* BIdle *)
-    destruct (bprog (ls t)) as [|[n| | |] rest] eqn:Hprog; cbn [fst snd] in *.
+    destruct (bprog (ls t)) as [|[n| | | | |] rest] eqn:Hprog; cbn [fst snd] in *.
     + apply BInv_same. exact I.
     + apply BInv_local; cbn; try exact Logic.I; try assumption; [rewrite Hpc; exact Logic.I|apply (b_tok _ _ I)].
     + apply BInv_local; cbn; try exact Logic.I; try assumption; [rewrite Hpc; exact Logic.I|apply (b_tok _ _ I)|apply (b_tok _ _ I)].
@@ -211,6 +213,10 @@ Proof.
       split; cbn; try assumption.
       * intros _. repeat split; try assumption. lia.
       * intros Hne. congruence.
+    + (* wait(token, timeout > 0): enters the busy wait *)
+      apply BInv_local; cbn; try exact Logic.I; try assumption; [rewrite Hpc; exact Logic.I|apply (b_tok _ _ I)|apply (b_tok _ _ I)].
+    + (* arrive_and_wait(timeout > 0) *)
+      apply BInv_local; cbn; try exact Logic.I; try assumption; [rewrite Hpc; exact Logic.I|apply (b_tok _ _ I)].
   - (* BLoad *)
     destruct n as [|n]; cbn [fst snd] in *.
     + apply BInv_local; cbn; try exact Logic.I; try assumption; [rewrite Hpc; exact Logic.I|].
@@ -296,7 +302,7 @@ Proof.
                    forall t0, bpcs (upd ls t l') t0 = bpcs ls t0).
     { intros l' Hl t0. destruct (Nat.eq_dec t0 t) as [->|Hn0]; [|apply bpcs_other; exact Hn0].
       rewrite bpcs_same. unfold bpcs. rewrite Hpc. destruct Hl as [Hl|[? [? [? [? [? Hl]]]]]].
-      - destruct (pcb l') as [| | ? ? ? ? [?|]| |]; try reflexivity; destruct Hl.
+      - destruct (pcb l') as [| | ? ? ? ? [?|]| | |]; try reflexivity; destruct Hl.
       - rewrite Hl. reflexivity. }
     destruct I as [Ip IT Is Isub Itok Iidle Istage Ibc].
     assert (Htk : tok_ok g old k) by (destruct (Itok t) as [_ H]; rewrite Hpc in H; exact H).
@@ -339,7 +345,7 @@ Proof.
       assert (Hns : no_sub (pcb (arr_next (ls t) n old k w)) /\
                     tok_ok g (token (arr_next (ls t) n old k w)) (tokk (arr_next (ls t) n old k w)) /\
                     pc_tok_ok g (pcb (arr_next (ls t) n old k w))).
-      { unfold arr_next. destruct n as [|[|m]]; [destruct w|destruct w|]; cbn; repeat split;
+      { unfold arr_next, wait_pc. destruct n as [|[|m]]; [destruct w; [destruct (busy_op _)|]|destruct w; [destruct (busy_op _)|]|]; cbn; repeat split;
           try (destruct Htk; assumption); try (destruct (Itok t) as [[? ?] _]; assumption); try exact Logic.I. }
       destruct Hns as [Hn1 [Hn2 Hn3]].
       assert (Hp : (phase g < pmod)%N) by (rewrite Ip; apply pb_lt).
@@ -372,6 +378,13 @@ Proof.
     destruct (N.eqb (phase g) old) eqn:Hq; cbn [fst snd].
     + apply BInv_same. exact I.
     + apply BInv_local; cbn; try exact Logic.I; [apply BInv_blog_add; exact I|rewrite Hpc; exact Logic.I|apply (b_tok _ _ I)].
+  - (* busy wait: timer expired -> blocking wait; else poll the phase *)
+    destruct (timed_out start); cbn [fst snd].
+    + apply BInv_local; cbn; try exact Logic.I; try assumption; [rewrite Hpc; exact Logic.I|apply (b_tok _ _ I)|].
+      destruct (b_tok _ _ I t) as [_ Htk]. rewrite Hpc in Htk. exact Htk.
+    + destruct (N.eqb (phase g) old) eqn:Hq; cbn [fst snd].
+      * apply BInv_same. exact I.
+      * apply BInv_local; cbn; try exact Logic.I; [apply BInv_blog_add; exact I|rewrite Hpc; exact Logic.I|apply (b_tok _ _ I)].
 Qed.
 
 (* ---------- the event log ---------- *)
@@ -415,8 +428,8 @@ Lemma b_tstep_delta start t g (ls : locals blocal) : BInv g ls ->
   bad (fst (b_tstep start t g (ls t))) = false -> LogDelta t g (fst (b_tstep start t g (ls t))).
 Proof.
   intros I Hbad. unfold b_tstep in *.
-  destruct (pcb (ls t)) as [|n w|n old k w [pc|]|st n old k w|old k] eqn:Hpc.
-  - destruct (bprog (ls t)) as [|[n| | |] rest]; cbn [fst]; apply LD_none; reflexivity.
+  destruct (pcb (ls t)) as [|n w|n old k w [pc|]|st n old k w|old k|old k] eqn:Hpc.
+  - destruct (bprog (ls t)) as [|[n| | | | |] rest]; cbn [fst]; apply LD_none; reflexivity.
   - destruct n; cbn [fst]; apply LD_none; reflexivity.
   - destruct (tree_step old t (btree g) pc) as [tr' pc'] eqn:Hst.
     destruct (b_sub _ _ I _ _ _ _ _ _ Hpc) as [_ [_ Hnr]].
@@ -440,6 +453,13 @@ Proof.
     + assert (Hst4 : cstage g = 4) by lia. rewrite Hst4 in Hcm, He. cbn in Hcm, He. subst k.
       apply LD_publish; cbn; try reflexivity; try assumption. rewrite Hcm, Hall, He. reflexivity.
   - destruct (N.eqb (phase g) old) eqn:Hq; cbn [fst].
+    + apply LD_none; reflexivity.
+    + apply (LD_depart t g _ k); cbn; try reflexivity.
+      destruct (b_tok _ _ I t) as [_ Htk]. rewrite Hpc in Htk. destruct Htk as [H1 H2].
+      apply N.eqb_neq in Hq. rewrite (b_phase _ _ I), H1 in Hq.
+      destruct (Nat.eq_dec k (phno g)) as [->|]; [congruence|lia].
+  - destruct (timed_out start); cbn [fst]; [apply LD_none; reflexivity|].
+    destruct (N.eqb (phase g) old) eqn:Hq; cbn [fst].
     + apply LD_none; reflexivity.
     + apply (LD_depart t g _ k); cbn; try reflexivity.
       destruct (b_tok _ _ I t) as [_ Htk]. rewrite Hpc in Htk. destruct Htk as [H1 H2].
@@ -661,4 +681,95 @@ Proof.
   assert (Hq : N.eqb (phase (fst c)) old = false).
   { apply N.eqb_neq. rewrite (b_phase _ _ I), H1. apply pb_distinct; assumption. }
   rewrite Hq. split; reflexivity.
+Qed.
+
+(* ---------- wait(token, busy_wait_timeout > 0): the busy wait ---------- *)
+(* an expired timer never lets the caller out: the step changes nothing but the thread's pc,
+   which continues with the blocking wait for the SAME token *)
+Lemma barrier_busy_wait_timeout_falls_back o t g (l : blocal) old k :
+  pcb l = BSpin old k -> timed_out o = true ->
+  fst (b_tstep o t g l) = g /\ snd (b_tstep o t g l) = setpc l (BPoll old k).
+Proof. intros Hpc Ho. unfold b_tstep. rewrite Hpc, Ho. split; reflexivity. Qed.
+
+(* every step of the busy wait: stay in it, fall back to the blocking wait, or return — and it
+   returns only if the phase byte it read differs from the token *)
+Lemma barrier_busy_wait_step o t g (l : blocal) old k :
+  pcb l = BSpin old k ->
+  (b_tstep o t g l = (g, l)) \/
+  (b_tstep o t g l = (g, setpc l (BPoll old k))) \/
+  (phase g <> old /\ timed_out o = false /\
+   b_tstep o t g l = (blog_add g (EvDepart t k (phno g)),
+                      {| bprog := tl (bprog l); pcb := BIdle; token := token l; tokk := tokk l |})).
+Proof.
+  intros Hpc. unfold b_tstep. rewrite Hpc. destruct (timed_out o) eqn:Ho.
+  - right. left. reflexivity.
+  - destruct (N.eqb (phase g) old) eqn:Hq.
+    + left. reflexivity.
+    + right. right. apply N.eqb_neq in Hq. repeat split; assumption.
+Qed.
+
+(* a poll of the busy wait after the token's phase completed returns (same side condition as for
+   the blocking wait: the token was not kept for 128 phases) *)
+Lemma barrier_busy_wait_releases E sched progs t old k :
+  let c := bar_run E sched progs in bad (fst c) = false ->
+  pcb (snd c t) = BSpin old k -> k < phno (fst c) -> phno (fst c) - k < 128 ->
+  forall o, timed_out o = false ->
+            pcb (snd (b_tstep o t (fst c) (snd c t))) = BIdle /\
+            blog (fst (b_tstep o t (fst c) (snd c t))) = EvDepart t k (phno (fst c)) :: blog (fst c).
+Proof.
+  intros c Hbad Hpc Hk Hw o Ho. destruct (bar_reachable E sched progs Hbad) as [I _]. fold c in I.
+  destruct (b_tok _ _ I t) as [_ Htk]. rewrite Hpc in Htk. destruct Htk as [H1 _].
+  unfold b_tstep. rewrite Hpc, Ho.
+  assert (Hq : N.eqb (phase (fst c)) old = false).
+  { apply N.eqb_neq. rewrite (b_phase _ _ I), H1. apply pb_distinct; assumption. }
+  rewrite Hq. split; reflexivity.
+Qed.
+
+(* the busy wait is entered exactly by the operations with a positive timeout: a thread inside
+   the busy wait executes OWaitBusy / OArriveWaitBusy (OWait / OArriveWait never spin) *)
+Definition op_inv (l : blocal) : Prop :=
+  match pcb l with
+  | BSpin _ _ => busy_op (bprog l) = true
+  | BIdle => True
+  | BPoll _ _ => True
+  | BLoad _ w | BArr _ _ _ w _ | BC _ _ _ _ w => True
+  end.
+
+Lemma arr_next_op_inv (l : blocal) n old k w : op_inv (arr_next l n old k w).
+Proof.
+  unfold arr_next, op_inv, wait_pc. destruct n as [|[|m]]; try destruct w; cbn; try exact Logic.I;
+    destruct (busy_op (bprog l)) eqn:Hb; cbn; try exact Logic.I; try reflexivity; exact Hb.
+Qed.
+
+Lemma after_tree_op_inv g2 (l : blocal) t n old k w pc : op_inv (snd (after_tree g2 l t n old k w pc)).
+Proof. destruct pc as [| |[|]]; cbn [after_tree snd]; try exact Logic.I. apply arr_next_op_inv. Qed.
+
+Lemma b_tstep_op_inv o t g (l : blocal) : op_inv l -> op_inv (snd (b_tstep o t g l)).
+Proof.
+  intros H. unfold b_tstep.
+  destruct (pcb l) as [|n w|n old k w [pc|]|st n old k w|old k|old k] eqn:Hpc.
+  - destruct (bprog l) as [|[n| | | | |] rest] eqn:Hp; cbn [snd]; unfold op_inv; cbn; rewrite ?Hpc, ?Hp; try exact Logic.I.
+    reflexivity.
+  - destruct n; cbn [snd]; unfold op_inv; cbn; exact Logic.I.
+  - destruct (tree_step old t (btree g) pc) as [tr' pc']. apply after_tree_op_inv.
+  - destruct (tree_start (expected g) t (btree g) o) as [tr' pc']. apply after_tree_op_inv.
+  - destruct st as [|[|[|[|st]]]]; cbn [snd]; try (unfold op_inv; cbn; exact Logic.I); apply arr_next_op_inv.
+  - destruct (N.eqb (phase g) old); cbn [snd]; [exact H|unfold op_inv; cbn; exact Logic.I].
+  - destruct (timed_out o); cbn [snd]; [unfold op_inv; cbn; exact Logic.I|].
+    destruct (N.eqb (phase g) old); cbn [snd]; [exact H|unfold op_inv; cbn; exact Logic.I].
+Qed.
+
+Lemma barrier_busy_wait_entered E sched progs t old k :
+  let c := bar_run E sched progs in
+  pcb (snd c t) = BSpin old k -> busy_op (bprog (snd c t)) = true.
+Proof.
+  intros c Hpc.
+  assert (H : forall t0, op_inv (snd c t0)).
+  { unfold c, bar_run.
+    apply (run_inv _ _ _ b_tstep (fun (_ : bar) (ls : locals blocal) => forall t0, op_inv (ls t0))).
+    - intros o t1 g ls IH t0. destruct (Nat.eq_dec t0 t1) as [->|Hne].
+      + rewrite upd_same. apply b_tstep_op_inv. apply IH.
+      + rewrite upd_other by exact Hne. apply IH.
+    - intros t0. exact Logic.I. }
+  specialize (H t). unfold op_inv in H. rewrite Hpc in H. exact H.
 Qed.
